@@ -208,6 +208,37 @@ let handle cmd args =
       (match crash_violation tr (nat_of_int (int_of_string ver)) with
        | None -> "OK"
        | Some (j, k) -> "BAD " ^ string_of_int (int_of_nat j) ^ " " ^ string_of_int (int_of_nat k))
+  | "scan", [str; bnd] ->
+      (* index-level scanners (ScanDefs) against the list-level models on one C string *)
+      let s = cview (unhex str) and b = cview (unhex bnd) in
+      let len l = List.length l in
+      let show = function Done x -> x | OOB -> "OOB" | NoFuel -> "FUEL" in
+      let i = int_of_nat in
+      let fh_ix = show (match ix_findheader s O with
+        | Done None -> Done "N" | Done (Some ((k, vb), ve)) -> Done (Printf.sprintf "%d.%d.%d" (i k) (i vb) (i ve))
+        | OOB -> OOB | NoFuel -> NoFuel) in
+      let fh_l = (match findheader s with
+        | FH (k, v, rest) -> let ve = len s - len rest - 1 in Printf.sprintf "%d.%d.%d" (len k) (ve - len v) ve
+        | _ -> "N") in
+      let uf_ix = show (match ix_unfoldheader s with Done l -> Done (hex l) | OOB -> OOB | NoFuel -> NoFuel) in
+      let uf_l = hex (unfoldheader s) in
+      let pb_ix = show (match ix_parseboundary s with
+        | Done IPBNone -> Done "N" | Done IPBErr -> Done "E"
+        | Done (IPB (bg, l)) -> Done (hex (List.filteri (fun j _ -> j >= i bg && j < i bg + i l) s))
+        | OOB -> OOB | NoFuel -> NoFuel) in
+      let pb_l = (match parseboundary s with PBNone -> "N" | PBErr -> "E" | PB x -> hex x) in
+      let sp_ix = show (match ix_skipseparator s with Done j -> Done (string_of_int (i j)) | OOB -> OOB | NoFuel -> NoFuel) in
+      let sp_l = string_of_int (len s - len (skipseparator s)) in
+      let fuel = nat_of_int (len s + 2) in
+      let fb_ix = if b = [] then "-" else show (match ix_findboundary fuel b s O false with
+        | Done None -> Done "N" | Done (Some (p, t)) -> Done (Printf.sprintf "%d.%b" (i p) t)
+        | OOB -> OOB | NoFuel -> NoFuel) in
+      let fb_l = if b = [] then "-" else (match findboundary fuel b s false with
+        | None -> "FUEL" | Some None -> "N" | Some (Some (p, t)) -> Printf.sprintf "%d.%b" (len s - len p) t) in
+      let pairs = [("findheader", fh_ix, fh_l); ("unfoldheader", uf_ix, uf_l); ("parseboundary", pb_ix, pb_l);
+                   ("skipseparator", sp_ix, sp_l); ("findboundary", fb_ix, fb_l)] in
+      let bad = List.filter (fun (_, a, c) -> a <> c) pairs in
+      if bad = [] then "OK" else String.concat " " (List.map (fun (n, a, c) -> n ^ ":" ^ a ^ "/" ^ c) bad)
   | "msg", file :: _name :: ops ->
       (match parse_message (unhex file) with
        | None -> "FUEL"
